@@ -292,7 +292,19 @@ class StrVec(Sym):
     def rsplit(self, sep=None, maxsplit=-1):
         if maxsplit == -1:
             return self.split(sep)
-        raise Unmodelled("rsplit with maxsplit")
+        if sep is None:
+            raise Unmodelled("rsplit(None, maxsplit)")
+        out = []
+        rest = self
+        while maxsplit != 0:
+            head, mid, tail = StrVec.lift(rest).rpartition(sep)
+            if isinstance(mid, str) and mid == "" and not isinstance(mid, StrVec):
+                break
+            out.insert(0, tail)
+            rest = head
+            maxsplit -= 1
+        out.insert(0, rest.maybe_concrete() if isinstance(rest, StrVec) else rest)
+        return out
 
     def _split_ws(self, maxsplit):
         n = self.fix_len()
@@ -319,6 +331,8 @@ class StrVec(Sym):
     def _class_or_set(self, chars):
         if chars is None:
             return lambda c: CC.in_ranges(c, CC.SPACE)
+        if chars is CC.INTSPACE:
+            return lambda c: CC.in_ranges(c, CC.INTSPACE)
         chars = StrVec.lift(chars)
         k = chars.fix_len()
         return lambda c: z3.Or(*[c == x for x in chars.chars[:k]]) if k else z3.BoolVal(False)
@@ -504,7 +518,7 @@ def str_to_int(s, base=10):
     if base != 10:
         raise Unmodelled("int(str, base)")
     eng = E.current()
-    s = StrVec.lift(s).strip()
+    s = StrVec.lift(s).strip(CC.INTSPACE)
     n = s.fix_len()
 
     def bad():
@@ -526,7 +540,7 @@ def str_to_int(s, base=10):
     while i < n:
         c = s.chars[i]
         if eng.branch(CC.in_ranges(c, CC.DIGIT)):
-            total = total * 10 + CC.digit_value(c)
+            total = total * 10 + digit_term(c)
             prev_digit = True
         elif eng.branch(c == 95):
             if not prev_digit or i == n - 1:
@@ -538,6 +552,21 @@ def str_to_int(s, base=10):
     if not prev_digit:
         bad()
     return mkint(total * sign)
+
+
+def digit_term(c):
+    """value of a decimal digit code point as a fresh 0..9 variable linked to the character (keeps the
+    arithmetic over the number free of nested if-then-else chains)"""
+    eng = E.current()
+    if z3.is_int_value(c):
+        import unicodedata
+        return z3.IntVal(unicodedata.decimal(chr(c.as_long())))
+    if eng.must_hold(z3.And(c >= 48, c <= 57)):
+        return c - 48
+    d = eng.fresh("digit", "int")
+    eng.add(z3.And(d >= 0, d <= 9))
+    eng.add(z3.Or(*[z3.And(c >= b, c <= b + 9, d == c - b) for b in CC.DIGIT_BLOCKS]))
+    return d
 
 
 def str_format_percent(fmt, args):
